@@ -262,7 +262,7 @@ class Gen:
             return ref["c"]
         from .codec import dec_arr
 
-        return dec_arr(ref["n"])
+        return dec_arr(ref["n"] if "n" in ref else ref["l"])
 
     def const_of(self, ref):
         return self.t[ref["t"]].const if "t" in ref else True
